@@ -58,8 +58,13 @@ ShiftDay(y, m, d, k) ==
   IF k = 0 THEN <<y, m, d>>
   ELSE IF k = 1 THEN (IF d < DaysIn(y, m) THEN <<y, m, d + 1>> ELSE IF m < 12 THEN <<y, m + 1, 1>> ELSE <<y + 1, 1, 1>>)
   ELSE (IF d > 1 THEN <<y, m, d - 1>> ELSE IF m > 1 THEN <<y, m - 1, DaysIn(y, m - 1)>> ELSE <<y - 1, 12, 31>>)
+\* Both time types carry the zone as +-hhmm: the part of a zone offset below one minute cannot be
+\* written (appendTimeCommon divides by 60, truncating towards zero; under a minute it writes Z), so
+\* the instant that survives is the one of the local fields in the zone truncated to whole minutes.
+\* For whole-minute zones (every zone a time read from DER can have) this is the time's own instant.
+ZoneMin(off) == LET a == IF off < 0 THEN -off ELSE off IN (IF off < 0 THEN -1 ELSE 1) * ((a \div 60) * 60)
 ToUTC(t) ==
-  LET sod == (t[4] * 3600) + (t[5] * 60) + t[6] - t[7]          \* -14 h .. +38 h
+  LET sod == (t[4] * 3600) + (t[5] * 60) + t[6] - ZoneMin(t[7])          \* -14 h .. +38 h
       k   == IF sod < 0 THEN -1 ELSE IF sod >= 86400 THEN 1 ELSE 0
       s2  == sod - (k * 86400)
       ymd == ShiftDay(t[1], t[2], t[3], k)
